@@ -226,6 +226,17 @@ func opProof(_ *HState, a Event) Event {
 				set = append(set, &h)
 			}
 		}
+		// the caller's set is a SET: it is handed over in another order than block order (reversed, or rotated)
+		if salt := gInt(a, "salt"); len(set) > 1 {
+			if salt%2 == 0 {
+				for i, j := 0, len(set)-1; i < j; i, j = i+1, j-1 {
+					set[i], set[j] = set[j], set[i]
+				}
+			} else {
+				k := 1 + salt%(len(set)-1)
+				set = append(append([]*chainhash.Hash{}, set[k:]...), set[:k]...)
+			}
+		}
 		m1, i1 := merkleblock.NewMerkleBlockWithTxnSet(block, set)
 		e["txnset"] = msgEvent(m1, i1)
 		mkFilter := func() *bloom.Filter {
